@@ -5,7 +5,8 @@ namespace Otel.C16
 
 inductive Op where
   | M (k : Nat) | K (i k kind : Nat) | A (i v : Nat) | R (c k : Nat) (is : List Nat) | U (c : Nat)
-  | T (t : Nat) | S (t id : Nat) | P (id : Nat)
+  | T (t : Nat) | S (t id : Nat) (par : Option Nat) | P (id : Nat)
+  | TS (t j : Nat)      -- tracer t := (span j).TracerProvider().Tracer("t<t>")
   | IM | IT | IP | GM (lvl : Nat) | GT | N | F | Y
   | XM | XT | XP        -- self-set: Set…Provider(Get…Provider()) / SetTextMapPropagator(GetTextMapPropagator())
   | par (threads : List (List Op))
